@@ -79,7 +79,8 @@ var (
 	queryOne = map[string]string{"a": "1"}
 	queryTwo = map[string]string{"a": "1", "b": "x y&z=%41+/é"}
 	badMeths = []string{"GE T", "G(T", "POST\r\nX-Y: z", " ", "GET /x HTTP/1.0\r\n\r\nGET", "é", "A\x00B", "GET\n"}
-	escapes  = []string{"../v2/%s", "..", "../../etc/passwd", "x10/../../%s", "../v1x/%s", "."}
+	// keys that leave /api/v1/ once joined and cleaned; /api/x10out is served by an open handler of the driver
+	escapes = []string{"../v2/%s", "..", "../../etc/passwd", "x10/../../%s", "../v1x/%s", ".", "../x10out", "../x10out", "zz/../../x10out"}
 )
 
 const (
@@ -135,6 +136,11 @@ func keyOf(o *opT, r *rand.Rand) string {
 		return e
 	case "empty":
 		return ""
+	case "weird":
+		// odd but legal database keys: the statement only demands that the call returns
+		w := []string{p + "?a=b c", p + "?a HTTP/1.1", p + "%zz", p + "#x y", "a b/../" + p, p + "?a=\xff", p + "\x7f",
+			p + "?%zz", "//" + p, p + "/", "./" + p, p + "?a=1&a=2;b", p + "\r\nX-Y: z", " " + p, p + "?" + strings.Repeat("x y", 3)}
+		return w[r.Intn(len(w))]
 	}
 	return p
 }
@@ -224,6 +230,7 @@ func see(ep string, ar *api.Request) {
 var eventCount atomic.Int64
 
 func register() error {
+	api.RegisterHandler("/api/x10out", outHandler{})
 	echo := func(ep string) api.ActionFunc {
 		return func(ar *api.Request) (string, error) {
 			see(ep, ar)
@@ -267,6 +274,18 @@ func register() error {
 				N   int
 			}{"struct", 7}, nil
 		}})
+}
+
+// outHandler is served outside the /api/v1/ scope and open to anyone: the bridge must not reach it.
+type outHandler struct{}
+
+func (outHandler) ReadPermission(*http.Request) api.Permission  { return api.PermitAnyone }
+func (outHandler) WritePermission(*http.Request) api.Permission { return api.PermitAnyone }
+func (outHandler) ServeHTTP(w http.ResponseWriter, r *http.Request) {
+	if ar := api.GetAPIRequest(r); ar != nil {
+		see("out", ar)
+	}
+	api.TextResponse(w, r, "x10 out")
 }
 
 func authenticator(r *http.Request, _ *http.Server) (*api.AuthToken, error) {
